@@ -180,7 +180,7 @@ package go_clipper2
 //@ spec idle(c *clipperBase) bool = c.actives == nil && len(c.scanlineList) == 0 && len(c.intersectList) == 0 && len(c.outrecList) == 0 && len(c.horzSegList) == 0 && len(c.horzJoinList) == 0
 
 //@ func clipperBase.clearSolutionOnly
-//@   props C12 C17
+//@   props C12 C17 C02
 //@   ensures [idle] idle(c)
 //@   ensures [keeps-input] same(c.minimaList, old(c.minimaList)) && same(c.vertexList, old(c.vertexList))
 
